@@ -33,7 +33,7 @@ REQUIRED_CLASSES = ["Polygon:valid", "Polygon:crossing", "Polygon:duplicate", "P
                     "ConvexPolygon:valid", "ConvexPolygon:interior-point", "ConvexSpheropolygon:valid", "ConvexPolyhedron:valid",
                     "ConvexPolyhedron:interior-point", "ConvexSpheropolyhedron:negative-radius", "Circle:nonpositive",
                     "Ellipsoid:nonpositive", "Polyhedron:valid", "malformed:one-dimensional", "malformed:three-dimensional", "malformed:Nx4",
-                    "malformed:empty-list"]
+                    "malformed:empty-list", "Polygon:valid:first-three-collinear-no-normal"]
 
 
 def ncases(tier):
@@ -261,11 +261,17 @@ def _run_case(i, rng, rec, tier, state):
     mode = i % 6
     if mode == 0:       # Polygon valid / invalid siblings
         c = gen.polygon_case(rng)
+        if c.get("straight_corner") is not None:
+            rec.cls("polygon:straight-corner" + (":first-three-collinear" if c["straight_corner"] == 1 else ""))
         V = c["V"]
         narg = None if c["normal_arg"] is None else (np.array(c["normal_arg"]) if rng.random() < 0.6 else list(c["normal_arg"]))
         verts = container(rng, V[:, :2] if (not c["tilted"] and np.all(V[:, 2] == 0) and rng.random() < 0.4) else V, allow_int=True)
         info = {"class": "Polygon", "vertices": V, "normal_arg": c["normal_arg"], "kind": c["kind"], "ccw": c["ccw"]}
         expect_valid(rec, st, "Polygon:valid", lambda: cs.Polygon(verts, normal=narg), info, after=lambda s: setattr(s, "centroid", (1.0, 2.0, 3.0)))
+        if c.get("straight_corner") == 1:
+            # no normal stated although the first three vertices are collinear: still a simple planar polygon
+            rec.cls("Polygon:valid:first-three-collinear-no-normal")
+            expect_valid(rec, st, "Polygon:valid", lambda: cs.Polygon(container(rng, V)), dict(info, normal_arg=None))
         if (not c["ccw"]) or (not c["convex"]) or c["tilted"]:
             rec.nontriv("Polygon", V, c["normal_arg"])
         sib = int(rng.integers(4))
